@@ -5,6 +5,7 @@ CONSTANTS
   VarLong = 4
   Padding = TRUE
   RelFpuOK = TRUE
+  SelfKinds = {}
   Labels = {"la", "lb"}
   MaxItems = 5
   Fills = {1, 2, 126}
